@@ -431,7 +431,7 @@ class TlGenerator:
         with open(file_path, 'r') as f:
             temp = ''
             for line in f:
-                stripped = line.strip()
+                stripped = line.split('//')[0].strip()  # a comment may follow a field inside a multi-line declaration
 
                 if not stripped or stripped.startswith('//') or stripped.startswith('---'):
                     continue
